@@ -71,14 +71,16 @@ func (m *Model) fire(name string) { m.Fired[name] = true }
 
 // Pos describes where a schema node sits (what the statements call the position).
 type Pos struct {
-	Kind     string // root prop item mapval addl branch
-	Optional bool   // property that may be absent (not required, or has a default)
-	Named    bool   // reached through $ref (a named definition) or is the root schema
-	File     string
-	ArrDepth int // number of enclosing inline arrays (item positions)
-	Outer    S   // outermost inline array schema of a nest (for NESTED_ARRAY_OUTER_LIMITS)
-	InMap    bool // some ancestor is a map value / additional property (struct without methods)
-	Path     string
+	Kind            string // root prop item mapval addl branch
+	Optional        bool   // property that may be absent (not required, or has a default)
+	Named           bool   // reached through $ref (a named definition) or is the root schema
+	File            string
+	ArrDepth        int  // number of enclosing inline arrays (item positions)
+	Outer           S    // outermost inline array schema of a nest (for NESTED_ARRAY_OUTER_LIMITS)
+	InMap           bool // this node is a map value / additional property
+	ParentNoMethods bool // property of an object emitted as an inline struct without unmarshal method
+	InNamedArr      bool // item of an array that is itself a named definition / the root
+	Path            string
 }
 
 func (m *Model) RootPos() Pos { return Pos{Kind: "root", Named: true, File: m.Root} }
@@ -215,10 +217,15 @@ func (m *Model) valid(sn any, v any, p Pos) Verdict {
 		np.Named = true
 		np.ArrDepth = 0
 		np.Outer = nil
+		np.InNamedArr = false
+		np.ParentNoMethods = false
 		return m.valid(t, v, np)
 	}
 	tl := typeList(s)
 	enum, hasEnum := s["enum"].([]any)
+	if r, done := m.asBuiltEarly(s, tl, hasEnum, v, p); done {
+		return r
+	}
 	if v == nil {
 		switch {
 		case hasEnum:
@@ -527,6 +534,9 @@ func (m *Model) array(s S, v []any, p Pos) Verdict {
 	ip.Optional = false
 	ip.Named = false
 	ip.ArrDepth = p.ArrDepth + 1
+	ip.InNamedArr = p.Named || p.InNamedArr
+	ip.InMap = false
+	ip.ParentNoMethods = false
 	if p.ArrDepth == 0 || p.Outer == nil {
 		ip.Outer = s
 	}
@@ -597,7 +607,10 @@ func (m *Model) object(s S, v map[string]any, p Pos) Verdict {
 		if ps, ok := props[k]; ok {
 			pp := p
 			pp.Kind = "prop"
+			pp.ParentNoMethods = noMethodsStruct(p)
 			pp.Named = false
+			pp.InMap = false
+			pp.InNamedArr = false
 			pp.ArrDepth = 0
 			pp.Outer = nil
 			pp.Path = p.Path + "/" + k
@@ -628,6 +641,8 @@ func (m *Model) object(s S, v map[string]any, p Pos) Verdict {
 			pp.Kind = "addl"
 		}
 		pp.InMap = true
+		pp.InNamedArr = false
+		pp.ParentNoMethods = false
 		pp.Named = false
 		pp.Optional = false
 		pp.ArrDepth = 0
@@ -641,19 +656,39 @@ func (m *Model) object(s S, v map[string]any, p Pos) Verdict {
 	return res
 }
 
+// noMethodsStruct: an object schema at this position is emitted as an inline struct without unmarshal method
+// (item of a named array, value of a pure map).
+func noMethodsStruct(p Pos) bool {
+	if p.Named {
+		return false
+	}
+	return (p.Kind == "item" && p.InNamedArr) || p.Kind == "mapval"
+}
+
 // unenforced consults the attachment-matrix deviations: constraint family fam
 // of schema s is not enforced at position p in the current implementation.
 func (m *Model) unenforced(p Pos, fam string, s S) bool {
 	name := ""
+	F := strings.ToUpper(fam)
 	switch {
-	case p.Kind == "item" && !p.Named && (fam == "string" || fam == "numeric"):
-		name = "UNENFORCED_ITEM_" + strings.ToUpper(fam)
-	case (p.Kind == "mapval" || p.Kind == "addl") && !p.Named:
-		name = "UNENFORCED_" + strings.ToUpper(p.Kind) + "_" + strings.ToUpper(fam)
-	case p.InMap && !p.Named:
-		name = "UNENFORCED_INMAP_" + strings.ToUpper(fam)
-	case fam == "array" && p.Named && (p.Kind == "prop" || p.Kind == "root" || p.Kind == "item"):
+	case p.Named && fam == "array":
 		name = "UNENFORCED_NAMED_ARRAY"
+	case p.Named:
+	case fam == "required":
+		switch {
+		case p.Kind == "mapval":
+			name = "UNENFORCED_MAPVAL_REQUIRED"
+		case p.Kind == "item" && p.InNamedArr:
+			name = "UNENFORCED_NAMED_ARRAY_ITEM_REQUIRED"
+		}
+	case p.Kind == "item" && p.InNamedArr:
+		name = "UNENFORCED_NAMED_ARRAY"
+	case p.Kind == "item" && fam != "array":
+		name = "UNENFORCED_ITEM_" + F
+	case p.Kind == "mapval" || p.Kind == "addl":
+		name = "UNENFORCED_" + strings.ToUpper(p.Kind) + "_" + F
+	case p.Kind == "prop" && p.ParentNoMethods:
+		name = "UNENFORCED_INLINE_STRUCT_PROPS"
 	}
 	if name == "" || !m.dev(name) {
 		return false
@@ -678,4 +713,68 @@ func constrained(fam string, s S) bool {
 		}
 	}
 	return false
+}
+
+var formatTypes = map[string]bool{"date": true, "time": true, "date-time": true, "ipv4": true, "ipv6": true}
+
+func isFormatString(s S, tl []string) bool {
+	f, _ := s["format"].(string)
+	nn := nonNullTypes(tl)
+	return formatTypes[f] && len(nn) == 1 && nn[0] == "string"
+}
+
+// asBuiltEarly holds the deviations that replace the whole evaluation of a node.
+func (m *Model) asBuiltEarly(s S, tl []string, hasEnum bool, v any, p Pos) (Verdict, bool) {
+	nn := nonNullTypes(tl)
+	// a typed integer enum generated with --min-sized-ints compares a sized value with an int table: nothing matches
+	if m.dev("SIZED_INT_ENUM_REJECTS_ALL") && m.MinSized && hasEnum && len(nn) == 1 && nn[0] == "integer" && v != nil {
+		m.fire("SIZED_INT_ENUM_REJECTS_ALL")
+		return m.reject(p, "as built: sized integer enum rejects every value"), true
+	}
+	// a format-typed string used as a definition (or root) is a defined type without decoding methods
+	if m.dev("FORMAT_DEF_NO_METHODS") && p.Named && !hasEnum && isFormatString(s, tl) && v != nil {
+		m.fire("FORMAT_DEF_NO_METHODS")
+		if jsonv.Kind(v) == "object" {
+			return Accept, true
+		}
+		return m.reject(p, "as built: format-typed definition has no unmarshaler"), true
+	}
+	// type null is only enforced for struct fields and inline array items
+	if m.dev("NULLTYPE_UNENFORCED") && len(tl) == 1 && tl[0] == "null" && !hasEnum && v != nil &&
+		(p.Named || p.Kind == "mapval" || p.Kind == "addl" || p.InNamedArr || p.ParentNoMethods) {
+		m.fire("NULLTYPE_UNENFORCED")
+		return Accept, true
+	}
+	if p.Kind == "addl" && !hasEnum && len(nn) == 1 && v != nil {
+		// typed additional properties are decoded by mapstructure from the raw map
+		if m.dev("ADDL_INT_TRUNCATES") && nn[0] == "integer" && jsonv.Kind(v) == "number" {
+			if r := rat(v); r != nil && !r.IsInt() {
+				m.fire("ADDL_INT_TRUNCATES")
+				return Accept, true
+			}
+		}
+		if m.dev("ADDL_NONPRIMITIVE_UNTYPED") {
+			if nn[0] == "object" {
+				m.fire("ADDL_NONPRIMITIVE_UNTYPED")
+				return Accept, true
+			}
+			if nn[0] == "array" && jsonv.Kind(v) == "array" {
+				m.fire("ADDL_NONPRIMITIVE_UNTYPED")
+				return Accept, true
+			}
+		}
+	}
+	// null handed to the unmarshaler of a struct with typed additional properties makes mapstructure fail
+	if m.dev("NULL_TO_ADDL_STRUCT_ERRORS") && v == nil && has(tl, "null") && !(p.Kind == "prop" && p.Optional) {
+		if _, ok := s["properties"].(map[string]any); ok {
+			if ap, ok := s["additionalProperties"].(map[string]any); ok {
+				at := typeList(ap)
+				if len(at) == 1 && (at[0] == "string" || at[0] == "number" || at[0] == "integer" || at[0] == "boolean" || at[0] == "array") {
+					m.fire("NULL_TO_ADDL_STRUCT_ERRORS")
+					return m.reject(p, "as built: null reaches mapstructure.Decode"), true
+				}
+			}
+		}
+	}
+	return Accept, false
 }
